@@ -123,6 +123,7 @@ def _ug_argv(inputs, fl):
 
 
 REPLAY_UG = {"src": "replay/c18.cc", "argv": _ug_argv}
+REPLAY_ALGO = {"src": "replay/c18.cc", "argv": lambda inputs, fl: [["algo_battery"]]}
 
 # ---------------------------------------------------------------------------
 # binary / linear search
@@ -277,22 +278,22 @@ UNITS = [
     Unit("c18_lower_bound_u", build_lower_bound("unsigned"), "h_lower_bound", enforce="lower_bound_impl", loop_contracts=True, timeout=300,
          must_have=[r"lower_bound_impl.postcondition", r"loop_invariant_step", r"loop_decreases"], checks=["--bounds-check", "--pointer-check"],
          assumptions=["sortedness precondition used through instances at the probed element (ghost assume)"],
-         note="lower_bound_impl<unsigned>: unbounded length (<= 10^6 elements object bound), loop invariant + variant"),
+         replay=REPLAY_ALGO, note="lower_bound_impl<unsigned>: unbounded length (<= 10^6 elements object bound), loop invariant + variant"),
     Unit("c18_lower_bound_d", build_lower_bound("double"), "h_lower_bound", enforce="lower_bound_impl", loop_contracts=True, timeout=300,
          must_have=[r"lower_bound_impl.postcondition", r"loop_invariant_step", r"loop_decreases"], checks=["--bounds-check", "--pointer-check"],
          assumptions=["sortedness and NaN-freedom preconditions used through instances at the probed element (ghost assume)"],
-         note="lower_bound_impl<double>"),
+         replay=REPLAY_ALGO, note="lower_bound_impl<double>"),
     Unit("c18_upper_bound_u", build_upper_bound("unsigned"), "h_upper_bound", enforce="upper_bound_impl", loop_contracts=True, timeout=300,
          must_have=[r"upper_bound_impl.postcondition", r"loop_invariant_step", r"loop_decreases"], checks=["--bounds-check", "--pointer-check"],
          assumptions=["sortedness precondition used through instances at the probed element (ghost assume)"],
-         note="upper_bound_impl<unsigned>"),
+         replay=REPLAY_ALGO, note="upper_bound_impl<unsigned>"),
     Unit("c18_upper_bound_d", build_upper_bound("double"), "h_upper_bound", enforce="upper_bound_impl", loop_contracts=True, timeout=300,
          must_have=[r"upper_bound_impl.postcondition", r"loop_invariant_step", r"loop_decreases"], checks=["--bounds-check", "--pointer-check"],
          assumptions=["sortedness and NaN-freedom preconditions used through instances at the probed element (ghost assume)"],
-         note="upper_bound_impl<double>"),
+         replay=REPLAY_ALGO, note="upper_bound_impl<double>"),
     Unit("c18_lower_bound_linear_u", build_lower_bound_linear("unsigned"), "h_lower_bound_linear", enforce="lower_bound_linear_impl", loop_contracts=True, timeout=300,
          must_have=[r"lower_bound_linear_impl.postcondition", r"loop_invariant_step", r"loop_decreases"], checks=["--bounds-check", "--pointer-check"],
-         note="lower_bound_linear_impl<unsigned>"),
+         replay=REPLAY_ALGO, note="lower_bound_linear_impl<unsigned>"),
 ]
 
 
@@ -416,14 +417,111 @@ void h_sort(void)
 UNITS += [
     Unit("c18_partition_n6", build_partition(6), "h_partition", unwind=9, timeout=600, bounded="all arrays of length <= 6, elements < 32, every predicate on them (symbolic table)",
          must_have=[r"partition.split", r"partition.permutation", r"unwinding assertion"], checks=["--bounds-check", "--pointer-check"], no_canary=False,
-         note="partition_impl == std::partition semantics (bounded)"),
+         replay=REPLAY_ALGO, note="partition_impl == std::partition semantics (bounded)"),
     Unit("c18_heapsort_u4", build_heapsort("unsigned", 4), "h_sort", unwind=7, timeout=900, bounded="all unsigned arrays of length <= 4 (every permutation and multiset, symbolic contents)",
          must_have=[r"sort.sorted", r"sort.permutation", r"unwinding assertion"], checks=["--bounds-check", "--pointer-check"],
-         note="heapsort_impl (sift_down, pop_heap, make_heap, sort_heap, partial_sort): sorted permutation (bounded)"),
+         replay=REPLAY_ALGO, note="heapsort_impl (sift_down, pop_heap, make_heap, sort_heap, partial_sort): sorted permutation (bounded)"),
     Unit("c18_heapsort_u6", build_heapsort("unsigned", 6), "h_sort", unwind=9, timeout=3600, tier="thorough", bounded="all unsigned arrays of length <= 6",
          must_have=[r"sort.sorted", r"sort.permutation", r"unwinding assertion"], checks=["--bounds-check", "--pointer-check"],
-         note="heapsort_impl: sorted permutation (bounded, thorough)"),
+         replay=REPLAY_ALGO, note="heapsort_impl: sorted permutation (bounded, thorough)"),
     Unit("c18_heapsort_d5", build_heapsort("double", 5), "h_sort", unwind=8, timeout=3600, tier="thorough", bounded="all NaN-free double arrays of length <= 5",
          must_have=[r"sort.sorted", r"sort.permutation", r"unwinding assertion"], checks=["--bounds-check", "--pointer-check"],
-         note="heapsort_impl<double>: sorted permutation (bounded, thorough)"),
+         replay=REPLAY_ALGO, note="heapsort_impl<double>: sorted permutation (bounded, thorough)"),
+]
+
+
+# ---------------------------------------------------------------------------
+# min_element, all_of/any_of, integer helpers
+# ---------------------------------------------------------------------------
+def build_min_element(T):
+    def build(ctx):
+        rules = [
+            Rule(r"\bcomp\(\*(\w+), \*(\w+)\)", r"VERIF_COMP(*\1, *\2)", "+", note="Compare functor call -> macro (Less<>)"),
+            LoopContracts([
+                "    __CPROVER_assigns(iter, result)\n"
+                "    __CPROVER_loop_invariant(__CPROVER_same_object(iter, g_a) && __CPROVER_POINTER_OFFSET(iter) % sizeof(T) == 0 && G_IDX(iter) >= 1 && G_IDX(iter) <= g_n)\n"
+                "    __CPROVER_loop_invariant(__CPROVER_same_object(result, g_a) && __CPROVER_POINTER_OFFSET(result) % sizeof(T) == 0 && G_IDX(result) < G_IDX(iter))\n"
+                "    /* result is the FIRST minimum of the prefix [0, iter): nothing before it is <= it, nothing in the prefix is less */\n"
+                "    __CPROVER_loop_invariant((g_k < G_IDX(iter)) ==> !VERIF_COMP(g_a[g_k], *result))\n"
+                "    __CPROVER_loop_invariant((g_k < G_IDX(result)) ==> VERIF_COMP(*result, g_a[g_k]))\n"
+                "    __CPROVER_decreases(g_n - G_IDX(iter))\n"]),
+        ]
+        pc = ctx.func(ALGO, r"inline CELER_FUNCTION ForwardIt min_element\(ForwardIt iter,", rules, name="min_element")
+        pre = search_prelude(T, ctx).replace("typedef T const* ForwardIterator;", "typedef T const* ForwardIterator; typedef T const* ForwardIt;")
+        return (pre + """
+ForwardIt min_element(ForwardIt iter, ForwardIt last)
+__CPROVER_requires(g_n <= 1000000 && iter == g_a && last == g_a + g_n && __CPROVER_r_ok(g_a, g_n * sizeof(T)))
+__CPROVER_requires(g_k < g_n ==> NOTNAN(g_a[g_k]))
+__CPROVER_assigns()
+__CPROVER_ensures(__CPROVER_same_object(__CPROVER_return_value, g_a) && G_IDX(__CPROVER_return_value) <= g_n && (g_n == 0 ? __CPROVER_return_value == last : G_IDX(__CPROVER_return_value) < g_n))
+/* std::min_element: no element is less than the result, and every element BEFORE it is strictly greater (first of equal minima) */
+__CPROVER_ensures((g_n > 0 && g_k < g_n) ==> !(g_a[g_k] < *__CPROVER_return_value))
+__CPROVER_ensures((g_n > 0 && g_k < G_IDX(__CPROVER_return_value)) ==> (*__CPROVER_return_value < g_a[g_k]))
+{""" + pc.body + """}
+void h_min_element(void)
+{
+    size_t n, k; __CPROVER_assume(n <= 1000000);
+    T* a = malloc(n * sizeof(T)); __CPROVER_assume(a != 0);
+    g_a = a; g_n = n; g_k = k;
+    min_element(a, a + n);
+    VERIF_CANARY();
+}
+""")
+    return build
+
+
+def build_int_helpers(ctx):
+    cd = ctx.func(ALGO, r"CELER_CONSTEXPR_FUNCTION T ceil_div\(T top, T bottom\)", [Rule(r"static_assert\([^;]*;", "", 1, note="static_assert(is_unsigned<T>) dropped: T bound to unsigned types")], name="ceil_div")
+    cn = ctx.func(ALGO, r"CELER_CONSTEXPR_FUNCTION T clamp_to_nonneg\(T v\) noexcept", [], name="clamp_to_nonneg")
+    ng = ctx.func(ALGO, r"\[\[nodiscard\]\] CELER_CONSTEXPR_FUNCTION T negate\(T value\)", [Rule(r"T\{0\}", "((T)0)", 1, note="T{0}")], name="negate")
+    sg = ctx.func(ALGO, r"CELER_CONSTEXPR_FUNCTION int signum\(T x\)", [], name="signum")
+    hp = piece_half_positive(ctx)
+    return (HDR + "#include <stddef.h>\n" + """
+typedef ptrdiff_t difference_type;
+static difference_type half_positive(difference_type value)
+{""" + hp.body + """}
+#define DEF_CEIL_DIV(T, NAME) static T NAME(T top, T bottom) {""" + cd.body.replace("\n", " ") + """}
+DEF_CEIL_DIV(unsigned, ceil_div_u32)
+DEF_CEIL_DIV(unsigned long, ceil_div_u64)
+#define DEF_CLAMP_NN(T, NAME) static T NAME(T v) {""" + cn.body.replace("\n", " ") + """}
+DEF_CLAMP_NN(double, clamp_to_nonneg_d)
+DEF_CLAMP_NN(int, clamp_to_nonneg_i)
+#define DEF_NEGATE(T, NAME) static T NAME(T value) {""" + ng.body.replace("\n", " ") + """}
+DEF_NEGATE(double, negate_d)
+#define DEF_SIGNUM(T, NAME) static int NAME(T x) {""" + sg.body.replace("\n", " ") + """}
+DEF_SIGNUM(double, signum_d)
+DEF_SIGNUM(int, signum_i)
+void h_int_helpers(void)
+{
+    unsigned t32, b32; unsigned long t64, b64; double d; int i; difference_type len;
+    __CPROVER_assume(b32 != 0 && b64 != 0);
+    /* exact-arithmetic reference: ceil(top/bottom) = floor + (remainder != 0), with C's / and % as the (trusted) floor and remainder;
+       a least-q-with-q*bottom>=top formulation needs a 64x64 multiplier proof that no installed solver finishes */
+    unsigned q32 = ceil_div_u32(t32, b32);
+    __CPROVER_assert(q32 == t32 / b32 + (t32 % b32 != 0 ? 1u : 0u), "ceil_div.u32: floor + (remainder != 0), for all 32-bit operands");
+    unsigned long q64 = ceil_div_u64(t64, b64);
+    __CPROVER_assert(q64 == t64 / b64 + (t64 % b64 != 0 ? 1ul : 0ul), "ceil_div.u64: floor + (remainder != 0), for all 64-bit operands");
+    __CPROVER_assert(__CPROVER_isnand(d) || (clamp_to_nonneg_d(d) >= 0 && (d >= 0 ? clamp_to_nonneg_d(d) == d : clamp_to_nonneg_d(d) == 0)), "clamp_to_nonneg.double");
+    __CPROVER_assert(clamp_to_nonneg_i(i) == (i < 0 ? 0 : i), "clamp_to_nonneg.int");
+    __CPROVER_assert(__CPROVER_isnand(d) || negate_d(d) == -d, "negate.double: equals unary minus on values");
+    __CPROVER_assert(!(d == 0 && __CPROVER_signd(d) == 0) || __CPROVER_signd(negate_d(d)) == 0, "negate.double: negate(+0) is +0 (documented difference from unary minus)");
+    __CPROVER_assert(signum_d(d) == (d > 0 ? 1 : d < 0 ? -1 : 0) && signum_i(i) == (i > 0 ? 1 : i < 0 ? -1 : 0), "signum");
+    __CPROVER_assume(len >= 0);
+    __CPROVER_assert(half_positive(len) == len / 2, "half_positive: value/2 for non-negative values");
+    VERIF_CANARY();
+}
+""")
+
+
+UNITS += [
+    Unit("c18_min_element_u", build_min_element("unsigned"), "h_min_element", enforce="min_element", loop_contracts=True, timeout=300,
+         must_have=[r"min_element.postcondition", r"loop_invariant_step", r"loop_decreases"], checks=["--bounds-check", "--pointer-check"],
+         replay=REPLAY_ALGO, note="min_element<unsigned>: the FIRST minimal element (std::min_element), any length"),
+    Unit("c18_min_element_d", build_min_element("double"), "h_min_element", enforce="min_element", loop_contracts=True, timeout=300,
+         must_have=[r"min_element.postcondition", r"loop_invariant_step", r"loop_decreases"], checks=["--bounds-check", "--pointer-check"],
+         assumptions=["NaN-freedom used through instances (witness element)"],
+         replay=REPLAY_ALGO, note="min_element<double>"),
+    Unit("c18_int_helpers", build_int_helpers, "h_int_helpers", timeout=600, backend="cvc5",
+         must_have=[r"ceil_div.u32", r"ceil_div.u64", r"half_positive", r"signum"], checks=["--bounds-check", "--div-by-zero-check"],
+         replay=REPLAY_ALGO, note="ceil_div (32/64-bit, all operands), clamp_to_nonneg, negate, signum, half_positive against exact references (loop-free, complete)"),
 ]
